@@ -65,7 +65,8 @@ def RevSem (rev : Option ARevert) (ms : Status) (Ps : Nat → Nat) (Mi : Option 
   match rev with
   | none => Mi = Ri ∧ ∀ k, Ms k = Rs k
   | some r => r.prevStatus = ms ∧ WF r.storage ∧ revInfoOK r.account Mi Ri ∧
-      ∀ k, revSlotV true r.storage r.wipe Ps Rs k = Ms k
+      (∀ k, revSlotV true r.storage r.wipe Ps Rs k = Ms k) ∧
+      (r.wipe = true → ∀ k, r.storage.get k = none → Rs k = 0)
 
 theorem RevSem.filter (r : ARevert) (ms : Status) (Ps : Nat → Nat) (Mi : Option Info) (Ms : Nat → Nat)
     (Ri : Option Info) (Rs : Nat → Nat) (h : RevSem (some r) ms Ps Mi Ms Ri Rs) :
@@ -81,7 +82,7 @@ theorem RevSem.filter (r : ARevert) (ms : Status) (Ps : Nat → Nat) (Mi : Optio
       | doNothing => rw [hra] at h3; exact h3
       | deleteIt => rw [hra] at h5; cases h5
       | revertTo i => rw [hra] at h5; cases h5
-    · have := h4 k
+    · have := h4.1 k
       rw [h6, h7] at this
       simpa [revSlotV, BMap.get] using this.symm
   · simp only [he]; exact h
@@ -119,6 +120,17 @@ theorem rs_md_wipe (accS us : BMap Slot) (Ps Ms Rs : Nat → Nat) (h : SlotsRel 
     simp only [Option.map]
     cases (us.get k).isSome <;> simp [(h.get_none hg).symm]
   | some s => simp only [Option.map]; exact (h.get_some hg).1
+
+theorem md_none_us (us : BMap Slot) (base : BMap RevSlot) (hw : WF us) (k : Nat)
+    (h : (markDestroyed us base).get k = none) : us.get k = none := by
+  rw [markDestroyed_get _ _ hw] at h
+  cases hb : base.get k with
+  | some v => rw [hb] at h; cases h
+  | none =>
+    rw [hb] at h
+    cases hu : us.get k with
+    | none => rfl
+    | some s => rw [hu] at h; simp at h
 
 theorem rs_md_nowipe (dbr : Bool) (accS us : BMap Slot) (Ps Ms Rs : Nat → Nat) (hd : DRel accS Ms)
     (hu : SlotsRel us (fun _ => 0) Rs) (k : Nat) :
@@ -355,7 +367,7 @@ theorem merge_changed (hts : t.status = .changed) : MergeGoal acc t c Pi Ps Mi M
   refine ⟨_, _, uacr_changed acc t hts hbs, RevSem.filter _ _ _ _ _ _ _ ⟨hb.status, prevStorage_WF _ hu.1, ?_, ?_⟩, fun _ => ?_⟩
   · exact infoRevert_ok acc t Mi Ri hb.info (merge_hti acc t c Pi Ps Mi Ms Ri Rs hb hm ht hc)
       (by rw [merge_accsome acc t c Pi Ps Mi Ms Ri Rs hb hm ht hc, hhi])
-  · exact rs_prev true _ Ps Ms Rs hu
+  · exact ⟨rs_prev true _ Ps Ms Rs hu, fun h => absurd h (by simp)⟩
   · exact binv_mk acc _ _ _ _ Pi Ri Ps Rs (by rw [← ht.status, hts]) rfl
       (merge_hti acc t c Pi Ps Mi Ms Ri Rs hb hm ht hc) hb.orig
       ((storageInv_nd _ Ps Rs rfl).mpr (st_extend_nd _ _ Ps Ms Rs ha hu))
@@ -373,7 +385,7 @@ theorem merge_imc (hts : t.status = .inMemoryChange) : MergeGoal acc t c Pi Ps M
     have ha := (storageInv_nd acc Ps Ms hnd).mp hb.stor
     refine ⟨_, _, uacr_imc acc t hts hbs, RevSem.filter _ _ _ _ _ _ _ ⟨hb.status, prevStorage_WF _ hu.1, ?_, ?_⟩, fun _ => ?_⟩
     · exact infoRevert_ok acc t Mi Ri hb.info hti (by rw [hsome, hhi])
-    · exact rs_prev true _ Ps Ms Rs hu
+    · exact ⟨rs_prev true _ Ps Ms Rs hu, fun h => absurd h (by simp)⟩
     · exact binv_mk acc _ _ _ _ Pi Ri Ps Rs hcs rfl hti hb.orig
         ((storageInv_nd _ Ps Rs rfl).mpr (st_extend_nd _ _ Ps Ms Rs ha hu))
   · have hnd : acc.status.wasDestroyed = false := by rw [hbs]; rfl
@@ -383,7 +395,7 @@ theorem merge_imc (hts : t.status = .inMemoryChange) : MergeGoal acc t c Pi Ps M
     have hMP := SlotsRel_nil_eq Ps Ms ha
     refine ⟨_, _, uacr_imc_empty acc t hts hbs, RevSem.filter _ _ _ _ _ _ _ ⟨hb.status, prevStorage_WF _ hu.1, ?_, ?_⟩, fun _ => ?_⟩
     · exact infoRevert_ok acc t Mi Ri hb.info hti (by rw [hsome, hbs]; rfl)
-    · exact rs_prev true _ Ps Ms Rs hu
+    · exact ⟨rs_prev true _ Ps Ms Rs hu, fun h => absurd h (by simp)⟩
     · exact binv_mk acc _ _ _ _ Pi Ri Ps Rs hcs rfl hti hb.orig
         ((storageInv_nd _ Ps Rs rfl).mpr (by rw [← hMP]; exact hu))
   · have hnd : acc.status.wasDestroyed = false := by rw [hbs]; rfl
@@ -397,7 +409,7 @@ theorem merge_imc (hts : t.status = .inMemoryChange) : MergeGoal acc t c Pi Ps M
       | none => rfl
       | some i => rw [hMi] at this; cases this
     refine ⟨_, _, uacr_imc_lne acc t hts hbs, RevSem.filter _ _ _ _ _ _ _ ⟨hb.status, prevStorage_WF _ hu.1, hMn, ?_⟩, fun _ => ?_⟩
-    · exact rs_prev true _ Ps Ms Rs hu
+    · exact ⟨rs_prev true _ Ps Ms Rs hu, fun h => absurd h (by simp)⟩
     · exact binv_mk acc _ _ _ _ Pi Ri Ps Rs hcs rfl hti hb.orig
         ((storageInv_nd _ Ps Rs rfl).mpr (by rw [← hMP]; exact hu))
 
@@ -432,7 +444,7 @@ theorem merge_destroyed (hts : t.status = .destroyed) : MergeGoal acc t c Pi Ps 
     have ha := (storageInv_nd acc Ps Ms hnd).mp hb.stor
     refine ⟨_, _, uacr_destroyed acc t hts hbs, RevSem.filter _ _ _ _ _ _ _ ⟨hb.status, presentAsRevert_WF _ ha.1, ?_, ?_⟩, fun _ => ?_⟩
     · exact infoRevert_ok acc t Mi Ri hb.info hti (by rw [hsome, hhi])
-    · exact rs_present_wipe true _ Ps Ms Rs ha
+    · exact ⟨rs_present_wipe true _ Ps Ms Rs ha, fun _ k _ => hRs k⟩
     · exact binv_mk acc _ _ _ _ Pi Ri Ps Rs hcs rfl (by rw [hRi]; rfl) hb.orig
         ((storageInv_d _ Ps Rs rfl).mpr (DRel_nil Rs hRs))
   · obtain ⟨hMi, hMs⟩ := merge_M_zero acc t c Pi Ps Mi Ms Ri Rs hb hm ht hc (by rw [hbs]; rfl)
@@ -451,7 +463,7 @@ theorem merge_dc (hts : t.status = .destroyedChanged) : MergeGoal acc t c Pi Ps 
     refine ⟨_, _, uacr_dc_from acc t hts hbs, RevSem.filter _ _ _ _ _ _ _
       ⟨hb.status, markDestroyed_WF _ _ (presentAsRevert_WF _ ha.1), ?_, ?_⟩, fun _ => ?_⟩
     · exact infoRevert_ok acc t Mi Ri hb.info hti (by rw [hsome, hhi])
-    · exact rs_md_wipe _ _ Ps Ms Rs ha hu.1
+    · exact ⟨rs_md_wipe _ _ Ps Ms Rs ha hu.1, fun _ k hk => hu.get_none (md_none_us _ _ hu.1 k hk)⟩
     · exact binv_mk acc _ _ _ _ Pi Ri Ps Rs hcs rfl hti hb.orig
         ((storageInv_d _ Ps Rs rfl).mpr (DRel_of_rel0 _ Rs hu))
   · -- bundle status Destroyed / LoadedNotExisting: the state at the last merge is empty
@@ -466,7 +478,7 @@ theorem merge_dc (hts : t.status = .destroyedChanged) : MergeGoal acc t c Pi Ps 
       · exact (storageInv_d acc Ps Ms (by rw [h]; rfl)).mp hb.stor
       · rw [hb.loadedNil (by rw [h]; rfl)]; exact DRel_nil Ms hMs
     refine ⟨_, _, uacr_dc_h acc t hts hbs, RevSem.filter _ _ _ _ _ _ _ ⟨hb.status, prevStorage_WF _ hu.1, hMi, ?_⟩, fun _ => ?_⟩
-    · exact rs_prev true _ Ps Ms Rs hu
+    · exact ⟨rs_prev true _ Ps Ms Rs hu, fun h => absurd h (by simp)⟩
     · exact binv_mk acc _ _ _ _ Pi Ri Ps Rs hcs rfl hti hb.orig
         ((storageInv_d _ Ps Rs rfl).mpr (st_extend_d _ _ Ms Rs ha hu))
   · have ha : DRel acc.storage Ms := (storageInv_d acc Ps Ms (by rw [hbs]; rfl)).mp hb.stor
@@ -478,7 +490,7 @@ theorem merge_dc (hts : t.status = .destroyedChanged) : MergeGoal acc t c Pi Ps 
       refine ⟨_, _, rfl, RevSem.filter _ _ _ _ _ _ _
         ⟨by rw [← hb.status, hbs], by simp only [if_true]; exact markDestroyed_WF _ _ (presentAsRevert_WF _ ha.1), ?_, ?_⟩, fun _ => ?_⟩
       · exact infoRevert_ok acc t Mi Ri hb.info hti (by rw [hsome, hbs]; rfl)
-      · simp only [if_true]; exact rs_md_nowipe true _ _ Ps Ms Rs ha hu
+      · simp only [if_true]; exact ⟨rs_md_nowipe true _ _ Ps Ms Rs ha hu, fun h => absurd h (by simp)⟩
       · simp only [if_true]
         exact binv_mk acc _ _ _ _ Pi Ri Ps Rs hcs rfl hti hb.orig
           ((storageInv_d _ Ps Rs rfl).mpr (st_extend_d _ _ (fun _ => 0) Rs (DRel_nil _ (fun _ => rfl)) hu))
@@ -487,7 +499,7 @@ theorem merge_dc (hts : t.status = .destroyedChanged) : MergeGoal acc t c Pi Ps 
       refine ⟨_, _, rfl, RevSem.filter _ _ _ _ _ _ _
         ⟨by rw [← hb.status, hbs], by simp only [Bool.false_eq_true, if_false]; exact prevStorage_WF _ hu.1, ?_, ?_⟩, fun _ => ?_⟩
       · exact infoRevert_ok acc t Mi Ri hb.info hti (by rw [hsome, hbs]; rfl)
-      · simp only [Bool.false_eq_true, if_false]; exact rs_prev true _ Ps Ms Rs hu
+      · simp only [Bool.false_eq_true, if_false]; exact ⟨rs_prev true _ Ps Ms Rs hu, fun h => absurd h (by simp)⟩
       · simp only [Bool.false_eq_true, if_false]
         exact binv_mk acc _ _ _ _ Pi Ri Ps Rs hcs rfl hti hb.orig
           ((storageInv_d _ Ps Rs rfl).mpr (st_extend_d _ _ Ms Rs ha hu))
@@ -500,7 +512,7 @@ theorem merge_dc (hts : t.status = .destroyedChanged) : MergeGoal acc t c Pi Ps 
     have ha : DRel acc.storage Ms := (storageInv_d acc Ps Ms (by rw [hbs]; rfl)).mp hb.stor
     refine ⟨_, _, uacr_dc_da acc t hts hbs, RevSem.filter _ _ _ _ _ _ _
       ⟨by rw [← hb.status, hbs], markDestroyed_WF _ _ (presentAsRevert_WF _ WF_nil), hMi, ?_⟩, fun _ => ?_⟩
-    · exact rs_md_nowipe true [] _ Ps Ms Rs (DRel_nil Ms hMs) hu
+    · exact ⟨rs_md_nowipe true [] _ Ps Ms Rs (DRel_nil Ms hMs) hu, fun h => absurd h (by simp)⟩
     · exact binv_mk acc _ _ _ _ Pi Ri Ps Rs hcs rfl hti hb.orig
         ((storageInv_d _ Ps Rs rfl).mpr (st_extend_d _ _ (fun _ => 0) Rs (DRel_zero_of _ Ms ha hMs) hu))
 
@@ -518,7 +530,7 @@ theorem merge_da (hts : t.status = .destroyedAgain) : MergeGoal acc t c Pi Ps Mi
     have ha := (storageInv_nd acc Ps Ms hnd).mp hb.stor
     refine ⟨_, _, uacr_da_from acc t hts hbs, RevSem.filter _ _ _ _ _ _ _ ⟨hb.status, presentAsRevert_WF _ ha.1, ?_, ?_⟩, fun _ => hnew⟩
     · exact infoRevert_ok acc t Mi Ri hb.info hti (by rw [hsome, hhi])
-    · exact rs_present_wipe true _ Ps Ms Rs ha
+    · exact ⟨rs_present_wipe true _ Ps Ms Rs ha, fun _ k _ => hRs k⟩
   · obtain ⟨hMi, hMs⟩ := merge_M_zero acc t c Pi Ps Mi Ms Ri Rs hb hm ht hc
       (by rcases hbs with h | h | h <;> rw [h] <;> rfl)
     exact ⟨_, _, uacr_da_none acc t hts hbs, ⟨by rw [hMi, hRi], fun k => by rw [hMs, hRs]⟩, fun _ => hnew⟩
@@ -529,7 +541,7 @@ theorem merge_da (hts : t.status = .destroyedAgain) : MergeGoal acc t c Pi Ps Mi
       cases hi : acc.info with
       | none => rw [hi] at this; cases this
       | some i => simp only [revInfoOK, Option.getD]; rw [← hb.info, hi]; rfl
-    · exact rs_present_nowipe true _ Ps Ms Rs ha hRs
+    · exact ⟨rs_present_nowipe true _ Ps Ms Rs ha hRs, fun h => absurd h (by simp)⟩
 
 /-- **(i)** `update_and_create_revert` on a bundle account satisfying the A.3 invariant w.r.t. (P → M) and
 a transition satisfying the transition invariant w.r.t. (M → R): no `unreachable!`, the new bundle account
